@@ -46,12 +46,24 @@ def case_strategy(draw, tier):
     return pair
 
 
+def _deform(case):
+    """The selection of deformation types as a tuple, a list or a numpy array (any "tuple of int"-like container)."""
+    if case["deform"] is None:
+        return None
+    how = case["seed"] % 4
+    if how == 2:
+        return list(case["deform"])
+    if how == 3:
+        return np.array(case["deform"])
+    return tuple(case["deform"])
+
+
 def run_alignment(case, start, end):
     ali = Alignment(start=start, end=end)
     ali.STEPS_FACTOR = case["steps"]
     np.random.seed(case["seed"])
     restr = None if case.get("restr_none") else [tuple(r) for r in case["restr"]]
-    deform = None if case["deform"] is None else tuple(case["deform"])
+    deform = _deform(case)
     with step_cap():
         ali.align_molecules(restr, deform, case["ignore_h"])
     return ali
@@ -69,7 +81,7 @@ def repaired_alignment(case, sspec, espec, label):
     ali = Alignment(start=start, end=end)
     ali.STEPS_FACTOR = case["steps"]
     restr = None if case.get("restr_none") else [tuple(r) for r in case["restr"]]
-    deform = None if case["deform"] is None else tuple(case["deform"])
+    deform = _deform(case)
     try:
         with env.quiet(), step_cap():
             ali.align_molecules(restr, deform, case["ignore_h"])
@@ -89,10 +101,12 @@ def judge(case, s0, e0, ali, label):
     if not (np.all(np.isfinite(s1)) and np.all(np.isfinite(e1))):
         raise PropertyViolation("finite", "%s: non-finite coordinates after alignment" % label)
     start_mobile = ns < ne
-    # the property's 1e-9 nm is meant for coordinates of molecular size; the search applies thousands of accepted
-    # transformations one on top of the other, each rounded on the grid of the absolute coordinates, so for molecules
-    # placed at box scale (up to 10^4 nm, grid 2e-12) the bound grows with the magnitude (1e-9 up to 10 nm)
-    tol = 1e-9 * max(1.0, float(max(np.abs(s0).max(), np.abs(e0).max())) / 10.0)
+    # every accepted transformation is applied to the current coordinates and rounded on the grid of the ABSOLUTE
+    # coordinates (eps x |coordinate|); the property's 1e-9 nm presupposes that this is negligible, which far from the
+    # origin and after thousands of accepted steps it is not: the bound allows for one grid step per accepted step
+    from vlib import build as _build
+    grid = float(np.finfo(float).eps) * float(max(np.abs(s0).max(), np.abs(e0).max()))
+    tol = 1e-9 + 4.0 * grid * _build.ACCEPTED[0]
     # the larger molecule (ties: start) is only translated; untouched when it is the end molecule
     if start_mobile:
         if not np.array_equal(e1, e0):
@@ -175,8 +189,7 @@ def check(case):
         np.random.seed(case["seed2"])
         restr = None if case.get("restr_none") else [tuple(r) for r in case["restr"]]
         with step_cap():
-            lib("align-second", ali.align_molecules, restr, None if case["deform"] is None else tuple(case["deform"]),
-                case["ignore_h"])
+            lib("align-second", ali.align_molecules, restr, _deform(case), case["ignore_h"])
         if not np.array_equal(positions(newmol), newpos):
             raise PropertyViolation("caller-objects", "%s: the re-assigned Molecule object was modified" % label)
         judge(case, s0b, e0b, ali, label + " (second alignment after re-assigning %s)" % second)
